@@ -21,6 +21,11 @@ class Unknown(Exception):
     pass
 
 
+def _all_slices(sl) -> bool:
+    items = sl.elts if isinstance(sl, ast.Tuple) else [sl]
+    return all(isinstance(i, ast.Slice) for i in items)
+
+
 PASS_METHODS = {"contiguous", "clone", "long", "detach", "to", "int", "unsqueeze", "expand", "view", "squeeze",
                 "expand_as", "reshape", "flatten"}
 
@@ -44,6 +49,8 @@ class Extractor:
                 return h
         if isinstance(e, ast.Call) and isinstance(e.func, ast.Attribute) and e.func.attr in PASS_METHODS:
             return self.cond(e.func.value, depth + 1)
+        if isinstance(e, ast.Subscript) and _all_slices(e.slice):
+            return self.cond(e.value, depth + 1)
         if isinstance(e, ast.BinOp) and isinstance(e.op, (ast.BitAnd, ast.BitOr)):
             return ("and" if isinstance(e.op, ast.BitAnd) else "or", self.cond(e.left, depth + 1), self.cond(e.right, depth + 1))
         if isinstance(e, ast.UnaryOp) and isinstance(e.op, ast.Invert):
